@@ -69,6 +69,10 @@ add("C19", "exploration",
     "The harness defines blocks with #[derive(rustradio_macros::Block)] (compiled with the working tree's macro crate): sync mode with 1..3 inputs x 1..3 outputs (default and into fields, a distinct output function and element type per output) and sync_tag mode (1x1 and 2x2 adding tags), and a non-sync derived block with packet and sample streams. Under drip-feed schedules with deliberately uneven inputs and output space every work() call is checked through the stream hooks: every input consumed and every output produced exactly min(shortest input, smallest output space); a wait verdict names an empty input / a full output; outputs arrive in declaration order with the right function; the first input's tags (plus added ones) reach every output once. The generated eof() is evaluated over all subsets of ended/drained inputs (3 copy inputs; copy + packet input), and new() must return packet and sample read ends in declaration order.",
     "Only arities up to 3x3 and the attribute combinations listed. A macro defect that breaks compilation for some arity makes the whole harness build fail (reported as inconclusive, as happened for 3 inputs before the fix).",
     "runtime monitoring: per-call conservation oracle over hook events for harness-defined derived blocks", "3/C19", "drip-feed")
+add("C15", "exploration",
+    "Every call runs inside catch_unwind and an Again without any stream event is re-called 64 times (spin). Inputs: all 42 catalogue blocks under drip-feed schedules with floats that mix NaN, +-inf, denormals, huge values and random bit patterns; HdlcDeframer (min/max incl. 0,1,2; checksum and fix-bits on/off), RtlSdrDecode and AuDecode with arbitrary bytes; StreamToPdu with arbitrary tag sequences (starts/ends in any order, duplicates, wrong value types); exhaustive AU header mutations (47 data offsets incl. 0..40, 2^31, 2^32-1 x 7 encodings x 4 rates x 4 channel counts, truncations 0..28, one-shot and chunked); SigMF recordings with hostile metadata (type confusion, missing keys, huge/negative numbers, non-JSON) and archives (wrong entry types, duplicate members, non-UTF-8 names, sparse, empty base name, truncated, byte-corrupted); all bursts of length 0..6 (quick) / 0..8 (thorough) over {-1,0,1,NaN,+inf} through Midpointer and Wpcr; packets of length 0..8 through VecToStream. The thorough tier repeats the workload in an AddressSanitizer build.",
+    "A worker killed by SIGSEGV/SIGABRT/SIGBUS is reported as a violation by the driver; time-outs and other exits are inconclusive. IL2P and the descrambler are fed {0,1} only (they document/assert bit input).",
+    "runtime monitoring: catch_unwind/spin oracle over structure-aware and exhaustive small inputs, AddressSanitizer build", "3/C15", "robustness")
 add("C17", "fault_enumeration",
     "Open modes: all 30 combinations of {Create, Overwrite, Append} x {absent, empty, non-empty, directory, unwritable} x {FileSink, NoCopyFileSink}, each executed in a child process running as uid 65534 (root ignores mode bits), compared with the documented table (open succeeds/fails; resulting content new / old+new / unchanged). Crash points: a re-executed child streams unique samples (FileSink<u32>) or records (NoCopyFileSink<String>) through a one-page stream from a feeder thread while its main thread loops work() and, after every return, reports the cumulative count consumed by returned calls (from hook events) with one write(2) to a pipe; the parent sends SIGKILL after a seeded number of reports plus a seeded delay (96 kills quick, 3200 thorough), then reads the last complete report and the file: the file must be a prefix of the serialised stream and hold at least the acknowledged count.",
     "Acknowledgement is taken when work() returns, which is the statement's reading; the stricter 'at the instant of consume()' is not demanded. Page-cache durability only.",
@@ -97,6 +101,8 @@ ENGINES = [
          kind_free_text="create/drop histories with /proc accounting, aliasing probes, injected mmap failures in child processes"),
     dict(name="filesink", path="harness/src/filesink.rs", serves_properties=["C17"],
          kind_free_text="mode table in unprivileged children; SIGKILL crash points with acknowledgement pipe"),
+    dict(name="robustness", path="harness/src/robust.rs", serves_properties=["C15"],
+         kind_free_text="hostile content generators and exhaustive small-input families; panic/spin oracle"),
     dict(name="hdlc", path="harness/src/hdlc.rs, hdlcprop.rs", serves_properties=["C13"],
          kind_free_text="HDLC transmitter model, reference deframer, clean and corrupted stream oracles"),
     dict(name="kernels", path="harness/src/kernels.rs", serves_properties=["C11"],
